@@ -42,10 +42,36 @@ Definition type_packed (t : Z) : bool := negb ((t =? 9) || (t =? 11) || (t =? 12
 Definition td_packed (d : tdesc) : bool := match d with DList _ e => type_packed (td_type e) | _ => false end.
 Definition td_baseid (d : tdesc) : Z := match d with DList id _ => id | DMap id _ _ => id | _ => 0 end.
 Definition wire_of_type (t : Z) : Z := if t =? T_MAP then 2 else wt_of_kind t.          (* Kind2Wire[t.TypeToKind()] *)
+Definition td_ewt (d : tdesc) : Z := match d with DList _ e => wire_of_type (td_type e) | _ => 2 end.
 Definition td_msg (S : schema) (d : tdesc) : option mdesc :=
   match d with DMsg n => find_msg S n | DList _ (DMsg n) => find_msg S n | _ => None end.
 Definition by_name (md : mdesc) (s : list Z) : option fdesc :=
   find (fun f => bytes_eqb (fd_name f) s || bytes_eqb (fd_json f) s) (md_fields md).
+
+(* ---------------------------------------------------------------- repair states of /repo
+   One flag per repair, so that every partial state of the tree stays judgeable (false = as on the pinned tree cac81b1).
+   Upstream (other builders, merged in /repo):
+     fx_noderr    d826271 errCodeOf instead of err.(Node)                      (panic part of 1004)
+     fx_idxrange  34dac25 searchIndex: idx < 0 / idx >= len is not found       (1003)
+     fx_idx0      d8167f5 index 0 of an unpacked list: cursor back on the tag  (1003)
+     fx_bound     77bf020+d02f250 getByPath narrows p.Buf to the message of every field step (getByPath twin of 1010)
+     fx_skipall   3f1bf28 SkipAllElementsOf: packed elements by wire type, end checks (1006)
+     fx_skipbytes 283e275 SkipBytesType compares the length with the remaining input
+     fx_loadempty 280f066 handleChild accepts messageLen == 0                  (1007)
+     fx_loadbound d8f3205 the recursive scan is bounded by the child node      (1010)
+   Proposed by C10 (patch series in /tmp/c10-fixwt):
+     fx_mapentry  1001; fx_insert 1002; fx_readint 1004/1008 (fixed32/fixed64 keys); fx_emptied 1005; fx_sintkey 1009;
+     fx_elemaddr  rest of 1003 (address of an unpacked list element = its tag) *)
+Record fixes := mk_fixes {
+  fx_noderr : bool; fx_idxrange : bool; fx_idx0 : bool; fx_bound : bool; fx_skipall : bool; fx_skipbytes : bool;
+  fx_loadempty : bool; fx_loadbound : bool;
+  fx_mapentry : bool; fx_insert : bool; fx_readint : bool; fx_emptied : bool; fx_sintkey : bool; fx_elemaddr : bool }.
+Definition no_fixes : fixes := mk_fixes false false false false false false false false false false false false false false.
+Definition head_fixes : fixes := mk_fixes true true true true true true true true false false false false false false.
+Definition all_fixes : fixes := mk_fixes true true true true true true true true true true true true true true.
+
+Section Fx.
+Variable fx : fixes.
 
 (* ---------------------------------------------------------------- BinaryProtocol reads (buf, Read) *)
 Definition at_ (buf : list Z) (rd : Z) : list Z := skipn (Z.to_nat rd) buf.
@@ -70,7 +96,9 @@ Definition c_skip (buf : list Z) (rd wt : Z) : eres Z :=
   else if wt =? 1 then c_next buf rd 8
   else if wt =? 2 then
     let '(v, n) := varint_dec (at_ buf rd) in
-    if n <? 0 then EPlain else c_next buf rd (goint v + n)
+    if n <? 0 then EPlain
+    else if fx_skipbytes fx && (v >? blen buf - rd - n) then EPlain
+    else c_next buf rd (goint v + n)
   else EOk rd.
 (* ReadString: the key bytes and the new Read *)
 Definition c_string (buf : list Z) (rd : Z) : eres (list Z * Z) :=
@@ -93,6 +121,8 @@ Definition c_int (buf : list Z) (rd t : Z) : eres (Z * Z) :=
     EOk (x, rd + n)
   else if t =? 15 then (if blen b <? 4 then EPlain else EOk (to_s 32 (le_dec 4 b), rd + 4))
   else if t =? 16 then (if blen b <? 8 then EPlain else EOk (goint (le_dec 8 b), rd + 8))
+  else if fx_readint fx && (t =? 7) then (if blen b <? 4 then EPlain else EOk (le_dec 4 b, rd + 4))
+  else if fx_readint fx && (t =? 6) then (if blen b <? 8 then EPlain else EOk (goint (le_dec 8 b), rd + 8))
   else EPlain.
 
 (* ---------------------------------------------------------------- search functions: (position, new Read, found) *)
@@ -115,8 +145,8 @@ Fixpoint search_index_packed (fuel : nat) (buf : list Z) (rd stop cnt idx ewt : 
       elet rd' := as_node (c_skip buf rd ewt) in search_index_packed f buf rd' stop (cnt + 1) idx ewt
     else EOk (rd, cnt)
   end.
-(* unpacked: state Read, cnt, result *)
-Fixpoint search_index_unpacked (fuel : nat) (buf : list Z) (rd cnt res idx ewt fnum : Z) : eres (Z * Z * Z) :=
+(* unpacked: state Read, cnt, result, exists *)
+Fixpoint search_index_unpacked (fuel : nat) (buf : list Z) (rd cnt res idx ewt fnum : Z) (ex : bool) : eres (Z * Z * Z * bool) :=
   match fuel with
   | O => EPanic
   | S f =>
@@ -125,26 +155,31 @@ Fixpoint search_index_unpacked (fuel : nat) (buf : list Z) (rd cnt res idx ewt f
       let cnt1 := cnt + 1 in
       if rd1 <? blen buf then
         elet '(num, _, n) := c_tag_peek buf rd1 in
-        if negb (num =? fnum) then EOk (rd1, cnt1, res)
+        if negb (num =? fnum) then EOk (rd1, cnt1, res, false)
         else
           let rd2 := if cnt1 <? idx then rd1 + n else rd1 in
-          search_index_unpacked f buf rd2 cnt1 (rd2 + n) idx ewt fnum
-      else search_index_unpacked f buf rd1 cnt1 res idx ewt fnum
-    else EOk (rd, cnt, res)
+          search_index_unpacked f buf rd2 cnt1 (rd2 + n) idx ewt fnum true
+      else search_index_unpacked f buf rd1 cnt1 res idx ewt fnum false
+    else EOk (rd, cnt, res, ex)
   end.
 Definition search_index (buf : list Z) (rd idx ewt : Z) (packed : bool) (fnum : Z) : eres (Z * Z * bool) :=
   let fuel := S (length buf) in
+  if fx_idxrange fx && (idx <? 0) then EOk (rd, rd, false) else
   if packed then
     elet '(len, rd0) := c_len buf rd in
     elet '(rd1, cnt) := search_index_packed fuel buf rd0 (rd0 + len) 0 idx ewt in
-    if cnt <? idx then EOk (rd1, rd1, false) else EOk (rd1, rd1, true)
+    if fx_idxrange fx && (rd1 >=? rd0 + len) then EOk (rd1, rd1, false)
+    else if cnt <? idx then EOk (rd1, rd1, false) else EOk (rd1, rd1, true)
   else
-    elet '(rd1, cnt, res) := search_index_unpacked fuel buf rd 0 rd idx ewt fnum in
-    if cnt <? idx then EOk (rd1, rd1, false) else EOk (res, rd1, true).
+    let rdb := if fx_idx0 fx && (idx =? 0) then rd - blen (varint_enc (fnum * 8 + ewt)) else rd in
+    elet '(rd1, cnt, res, ex) := search_index_unpacked fuel buf rdb 0 rd idx ewt fnum true in
+    if fx_idxrange fx && negb ex then EOk (rd1, rd1, false)
+    else if cnt <? idx then EOk (rd1, rd1, false) else EOk (res, rd1, true).
 
-(* keys: str key = Some bytes, int key = None + Go int *)
-Fixpoint search_key (fuel : nat) (buf : list Z) (rd : Z) (skey : option (list Z)) (ikey kt fnum : Z)
-  : eres (Z * Z * bool) :=
+(* keys: str key = Some bytes, int key = None + Go int; ptag = tag offset of the ptag being read.
+   Result: position, new Read, found, tag offset of the matched ptag (-1: none) *)
+Fixpoint search_key (fuel : nat) (buf : list Z) (rd : Z) (skey : option (list Z)) (ikey kt fnum ptag : Z)
+  : eres (Z * Z * bool * Z) :=
   match fuel with
   | O => EPanic
   | S f =>
@@ -156,24 +191,24 @@ Fixpoint search_key (fuel : nat) (buf : list Z) (rd : Z) (skey : option (list Z)
         | Some k => elet '(s, r) := as_plain (c_string buf rd2) in EOk (bytes_eqb s k, r)
         | None => elet '(x, r) := as_plain (c_int buf rd2 kt) in EOk (x =? ikey, r)
         end in
-      if hit then EOk (rd3, rd3, true)
+      if hit then EOk (rd3, rd3, true, ptag)
       else
         elet '(_, vwt, rd4) := as_plain (c_tag buf rd3) in
         elet rd5 := as_node (c_skip buf rd4 vwt) in
-        if rd5 >=? blen buf then EOk (rd5, rd5, false)
+        if rd5 >=? blen buf then EOk (rd5, rd5, false, -1)
         else
           elet '(num, _, n) := c_tag_peek buf rd5 in
-          if negb (num =? fnum) then EOk (rd5, rd5, false)
-          else search_key f buf (rd5 + n) skey ikey kt fnum
-    else EOk (rd, rd, false)
+          if negb (num =? fnum) then EOk (rd5, rd5, false, -1)
+          else search_key f buf (rd5 + n) skey ikey kt fnum rd5
+    else EOk (rd, rd, false, -1)
   end.
 
 (* SkipAllElements: (size, new Read); all errors are plain *)
-Fixpoint skip_packed (fuel : nat) (buf : list Z) (rd stop size : Z) : eres (Z * Z) :=
+Fixpoint skip_packed (fuel : nat) (buf : list Z) (rd stop size ewt : Z) : eres (Z * Z) :=
   match fuel with
   | O => EPanic
   | S f =>
-    if rd <? stop then elet rd' := c_skip buf rd 0 in skip_packed f buf rd' stop (size + 1)
+    if rd <? stop then elet rd' := c_skip buf rd ewt in skip_packed f buf rd' stop (size + 1) ewt
     else EOk (size, rd)
   end.
 Fixpoint skip_unpacked (fuel : nat) (buf : list Z) (rd fnum size : Z) : eres (Z * Z) :=
@@ -187,12 +222,17 @@ Fixpoint skip_unpacked (fuel : nat) (buf : list Z) (rd fnum size : Z) : eres (Z 
            elet rd2 := c_skip buf rd1 wt in skip_unpacked f buf rd2 fnum (size + 1)
     else EOk (size, rd)
   end.
-Definition skip_all (buf : list Z) (rd fnum : Z) (packed : bool) : eres (Z * Z) :=
+(* SkipAllElements(fieldNumber, packed) / SkipAllElementsOf(desc): ewt = wire type of a packed element *)
+Definition skip_all (buf : list Z) (rd fnum : Z) (packed : bool) (ewt : Z) : eres (Z * Z) :=
   as_plain (
   if packed then
     elet '(_, _, rd1) := c_tag buf rd in
     elet '(len, rd2) := c_len buf rd1 in
-    skip_packed (S (length buf)) buf rd2 (rd2 + len) 0
+    if fx_skipall fx then
+      if (len <? 0) || (rd2 + len >? blen buf) then EPlain else
+      elet '(size, rd3) := skip_packed (S (length buf)) buf rd2 (rd2 + len) 0 ewt in
+      if rd3 =? rd2 + len then EOk (size, rd3) else EPlain
+    else skip_packed (S (length buf)) buf rd2 (rd2 + len) 0 0
   else skip_unpacked (S (length buf)) buf rd fnum 0).
 
 (* ---------------------------------------------------------------- getByPath on the root value *)
@@ -206,10 +246,14 @@ Inductive gres :=
 
 Definition is_last {A} (l : list A) : bool := match l with [] => true | _ => false end.
 
-(* one path step: new Read, desc, tty, start, or the search error *)
+(* one path step: the (possibly narrowed) buffer, the search result, desc', type when found, type when not found *)
+Definition narrow (buf : list Z) (rd mlen : Z) : list Z :=
+  if fx_bound fx && (0 <=? mlen) && (mlen <? blen buf - rd) then firstn (Z.to_nat (rd + mlen)) buf else buf.
+
 Definition gstep (S : schema) (buf : list Z) (rd : Z) (desc : tdesc) (isRoot : bool) (st : pstep)
-  : option (eres (Z * Z * bool) * tdesc * Z * Z) :=      (* (search result) , desc', tty found, tty not found *)
+  : option (list Z * eres (Z * Z * bool * Z) * tdesc * Z * Z) :=
   let fuel := Datatypes.S (length buf) in
+  let nopair (r : eres (Z * Z * bool)) : eres (Z * Z * bool * Z) := elet '(a, b, c) := r in EOk (a, b, c, -2) in
   match st with
   | PField _ | PName _ =>
     match td_msg S desc with
@@ -219,28 +263,29 @@ Definition gstep (S : schema) (buf : list Z) (rd : Z) (desc : tdesc) (isRoot : b
       match ofd with
       | None => None                                   (* unknown fields are not generated *)
       | Some fd =>
-        let r :=
-          if isRoot then search_field fuel buf rd (fd_num fd) (rd + blen buf)
+        let '(buf1, r) :=
+          if isRoot then (buf, nopair (search_field fuel buf rd (fd_num fd) (rd + blen buf)))
           else match c_len buf rd with
-               | EOk (mlen, rd1) => search_field fuel buf rd1 (fd_num fd) (rd1 + mlen)
-               | _ => ENode 2                           (* errValue(ErrRead) *)
+               | EOk (mlen, rd1) => let b1 := narrow buf rd1 mlen in
+                                    (b1, nopair (search_field fuel b1 rd1 (fd_num fd) (rd1 + mlen)))
+               | _ => (buf, ENode 2)                   (* errValue(ErrRead) *)
                end in
-        Some (r, td_of_field fd, td_type (td_of_field fd), 11)
+        Some (buf1, r, td_of_field fd, td_type (td_of_field fd), 11)
       end
     end
   | PIndex idx =>
     match desc with
-    | DList id e => Some (search_index buf rd idx (wire_of_type (td_type e)) (td_packed desc) id, desc, td_type e, T_LIST)
+    | DList id e => Some (buf, nopair (search_index buf rd idx (wire_of_type (td_type e)) (td_packed desc) id), desc, td_type e, T_LIST)
     | _ => None
     end
   | PStrKey k =>
     match desc with
-    | DMap id kk e => Some (search_key fuel buf rd (Some k) 0 9 id, e, td_type e, T_MAP)
+    | DMap id kk e => Some (buf, search_key fuel buf rd (Some k) 0 9 id (rd - blen (varint_enc (id * 8 + 2))), e, td_type e, T_MAP)
     | _ => None
     end
   | PIntKey k =>
     match desc with
-    | DMap id kk e => Some (search_key fuel buf rd None k kk id, e, td_type e, T_MAP)
+    | DMap id kk e => Some (buf, search_key fuel buf rd None k kk id (rd - blen (varint_enc (id * 8 + 2))), e, td_type e, T_MAP)
     | _ => None
     end
   end.
@@ -252,13 +297,25 @@ Fixpoint gwalk (S : schema) (buf : list Z) (rd : Z) (desc : tdesc) (isRoot : boo
   | st :: rest =>
     match gstep S buf rd desc isRoot st with
     | None => GUnmodelled
-    | Some (r, desc', tty, ttynf) =>
+    | Some (buf, r, desc', tty, ttynf) =>
       match r with
       | EPanic => GPanic
-      | EPlain => GPanic                                        (* en := err.(Node) *)
+      | EPlain => if fx_noderr fx then GErr false (addr ++ [0]) else GPanic      (* en := err.(Node) / errCodeOf *)
       | ENode c => GErr (c =? 1) (addr ++ [0])
-      | EOk (start, rd1, found) =>
-        let addr' := addr ++ [start] in
+      | EOk (start, rd1, found, ptag) =>
+        (* fx_mapentry: the slot of the map field carries the tag offset of the matched ptag (-1: none);
+           fx_elemaddr: an element of an unpacked list is addressed by its tag *)
+        let addr0 := match addr with
+                     | _ :: _ => if fx_mapentry fx && negb (ptag =? -2) then removelast addr ++ [ptag] else addr
+                     | [] => addr
+                     end in
+        let start_a := match st, desc with
+                       | PIndex _, DList id e =>
+                         if fx_elemaddr fx && found && negb (td_packed desc)
+                         then start - blen (varint_enc (id * 8 + wire_of_type (td_type e))) else start
+                       | _, _ => start
+                       end in
+        let addr' := addr0 ++ [start_a] in
         if negb found then
           (if is_last rest then GNotFoundLast start ttynf addr' else GErr true addr')
         else
@@ -272,10 +329,11 @@ Fixpoint gwalk (S : schema) (buf : list Z) (rd : Z) (desc : tdesc) (isRoot : boo
           | [] =>
             (* the result node *)
             if (tty =? T_MAP) || (tty =? T_LIST) then
-              match skip_all buf rd1 (td_baseid desc') (td_packed desc') with
+              match skip_all buf rd1 (td_baseid desc') (td_packed desc') (td_ewt desc') with
               | EOk (size, rd2) =>
                 GFound (mk_gnode start rd2 tty (match desc' with DMap _ kk _ => kk | _ => 0 end) size desc' false) addr'
-              | _ => GPanic
+              | EPanic => GPanic
+              | _ => if fx_noderr fx then GErr false addr' else GPanic
               end
             else
               let r1 := if td_packed desc' then EOk (start, rd1)
@@ -326,8 +384,39 @@ Fixpoint desc_by_path (S : schema) (desc : tdesc) (p : list pstep) : option tdes
 Definition pt_of_step (st : pstep) : Z :=
   match st with PField _ | PName _ => PT_FIELD | PIndex _ => PT_INDEX | _ => PT_KEY end.
 
-Definition levels (addr : list Z) (p : list pstep) : list (nat * Z) :=
-  rev (combine (map Z.to_nat addr) (map pt_of_step p)).
+Definition levels (addr : list Z) (p : list pstep) : list (Z * Z) :=
+  rev (combine addr (map pt_of_step p)).
+
+(* updateByteLen under the repair flags (with all flags off this is ProtoRelen.relen_coded, see relen_coded_g_old):
+   fx_emptied: tag and length are dropped only when an emptied PACKED LIST is re-patched (drop = previousType is LIST);
+   fx_mapentry: a level below a map-key step is re-patched at the recorded ptag tag (address >= 0), and the in-place
+   branch no longer skips the previousType / isPacked update *)
+Definition relen_step_g (drop : bool) (b : list Z) (diff : Z) (addr : nat) : list Z * Z * bool :=
+  let buf := skipn addr b in
+  let '(_, tagOff) := varint_dec buf in
+  let '(len, lenOff) := varint_dec (skipn (Z.to_nat tagOff) buf) in
+  let newLength := len + diff in
+  let zero := (newLength =? 0) && drop in
+  let newBytes := if zero then [] else varint_enc (newLength mod 2 ^ 64) in
+  let subLen := blen newBytes - lenOff in
+  if subLen =? 0 then
+    (overwrite b (addr + Z.to_nat tagOff) newBytes, diff, true)
+  else
+    let head := if zero then addr else (addr + Z.to_nat tagOff)%nat in
+    let subLen' := if zero then subLen - tagOff else subLen in
+    (firstn head b ++ newBytes ++ skipn (addr + Z.to_nat tagOff + Z.to_nat lenOff) b, diff + subLen', false).
+
+Definition relen_coded_step_g (st : rstate) (lv : Z * Z) : rstate :=
+  let '(addr, pt) := lv in
+  if (rs_prev st =? 1) || (fx_mapentry fx && (rs_prev st =? 3) && (addr >=? 0)) || ((rs_prev st =? 2) && rs_packed st) then
+    let drop := if fx_emptied fx then rs_prev st =? 2 else true in
+    let '(b', d', inplace) := relen_step_g drop (rs_buf st) (rs_diff st) (Z.to_nat addr) in
+    if inplace && negb (fx_mapentry fx) then mk_rstate b' d' (rs_prev st) (rs_packed st)
+    else mk_rstate b' d' (prev_of_pt pt) false
+  else mk_rstate (rs_buf st) (rs_diff st) (prev_of_pt pt) (rs_packed st).
+
+Definition relen_coded_g (b : list Z) (diff : Z) (isPacked : bool) (lvls : list (Z * Z)) : list Z :=
+  rs_buf (fold_left relen_coded_step_g lvls (mk_rstate b diff 0 isPacked)).
 
 (* the declared type a path addresses, whatever the key kinds (the code does not check them) *)
 Fixpoint path_type_lax (S : schema) (lbl : flabel) (t : ftype) (p : list pstep) {struct p} : option (flabel * ftype) :=
@@ -385,11 +474,29 @@ Definition set_not_found (parent : Z) (st : pstep) (nt : Z) (src : list Z) (desc
   else if parent =? T_LIST then
     Some (if td_packed desc then src else varint_enc (td_baseid desc * 8 + 2) ++ src)
   else if parent =? T_MAP then
-    match to_raw st nt, desc with
-    | Some kb, DMap id _ e =>
-      let body := kb ++ varint_enc (8 + wire_of_type (td_type e)) ++ src in
-      Some (varint_enc (id * 8 + 2) ++ varint_enc (blen body) ++ body)
-    | _, _ => None
+    match desc with
+    | DMap id kk e =>
+      (* fx_insert: the key is encoded as the KEY type (wire type in the tag, all integer kinds), the value is field 2 *)
+      let okb := if fx_insert fx then
+                   match st with
+                   | PStrKey k => Some (varint_enc 10 ++ varint_enc (blen k) ++ k)
+                   | PIntKey k =>
+                     Some (varint_enc (Z.lor 8 (wire_of_type kk)) ++
+                           (if kk =? 13 then varint_enc (k mod 2 ^ 32)
+                            else if kk =? 4 then varint_enc (k mod 2 ^ 64)
+                            else if kk =? 7 then le_enc 4 (k mod 2 ^ 32)
+                            else if kk =? 6 then le_enc 8 (k mod 2 ^ 64)
+                            else match to_raw (PIntKey k) kk with Some b => skipn 1 b | None => [] end))
+                   | _ => None
+                   end
+                 else to_raw st nt in
+      match okb with
+      | Some kb =>
+        let body := kb ++ varint_enc ((if fx_insert fx then 16 else 8) + wire_of_type (td_type e)) ++ src in
+        Some (varint_enc (id * 8 + 2) ++ varint_enc (blen body) ++ body)
+      | None => None
+      end
+    | _ => None
     end
   else None.
 
@@ -401,7 +508,7 @@ Definition coded_set (S : schema) (root : list Z) (buf : list Z) (p : list pstep
     let finish (s e : Z) (x : list Z) (addr : list Z) (ex : bool) :=
       let b1 := splice buf (Z.to_nat s) (Z.to_nat e) x in
       let packed := match lst with PIndex _ => type_packed nt | _ => false end in
-      CRes 0 ex (relen_coded b1 (blen b1 - blen buf) packed (levels addr p)) in
+      CRes 0 ex (relen_coded_g b1 (blen b1 - blen buf) packed (levels addr p)) in
     match get_by_path S root buf p with
     | GFound n addr =>
       if g_t n =? nt then finish (g_start n) (g_end n) sub addr true
@@ -545,7 +652,11 @@ Definition coded_unset (S : schema) (root : list Z) (buf : list Z) (p : list pst
           match find_delete_child n nb tp with
           | EOk (s, e) =>
             let b1 := splice buf (Z.to_nat (g_start n + s)) (Z.to_nat (g_start n + e)) [] in
-            CRes 0 false (relen_coded b1 (blen b1 - blen buf) packed (levels (addr ++ [s]) p))
+            let addr1 := match lst, addr with
+                         | (PStrKey _ | PIntKey _), _ :: _ => if fx_mapentry fx then removelast addr ++ [-1] else addr
+                         | _, _ => addr
+                         end in
+            CRes 0 false (relen_coded_g b1 (blen b1 - blen buf) packed (levels (addr1 ++ [s]) p))
           | ENode _ => CRes 1 false buf
           | EPlain => CRes 1 false buf
           | EPanic => CPanic
@@ -573,7 +684,7 @@ Fixpoint fields_scan (fuel : nat) (S : schema) (md : mdesc) (buf : list Z) (rd :
             let d := td_of_field fd in
             elet '(s, e) := (match d with
                              | DList _ _ | DMap _ _ _ =>
-                               match skip_all buf rd (td_baseid d) (td_packed d) with
+                               match skip_all buf rd (td_baseid d) (td_packed d) (td_ewt d) with
                                | EOk (_, r) => EOk (rd, r)
                                | _ => ENode 2
                                end
@@ -625,112 +736,6 @@ Definition coded_op (S : schema) (root : list Z) (buf : list Z) (o : cop) : cres
   | CSet p sub => coded_set S root buf p sub
   | CUnset p => coded_unset S root buf p
   | CSetMany l => coded_set_many S root buf l
-  end.
-
-(* ---------------------------------------------------------------- defect classes (selectors on the case)
-   ids are listed in findings/C10.json:
-   1001 edit at / below a MAP VALUE: the enclosing map-entry length is never re-patched (no address is recorded for
-        the entry; the in-place `continue` even patches the FIRST entry of the map instead)
-   1002 insertion of an absent map key writes a malformed entry (key tag built from proto.Type / from the VALUE type,
-        value tagged with field number 1)
-   1003 list index addressing: unpacked lists get the offset AFTER the element tag, index == len is reported as found
-   1004 int-key step on a map keyed by fixed32 / fixed64 / bool: plain error -> `err.(Node)` panics
-   1005 a message emptied by the edit is removed together with its tag (presence lost) / other plain field paths
-   1006 SetMany on the root value *)
-Definition is_key (s : pstep) : bool := pt_of_step s =? PT_KEY.
-Definition is_index (s : pstep) : bool := pt_of_step s =? PT_INDEX.
-
-(* the key kinds of the maps the path goes through with an int key *)
-Fixpoint bad_intkey (S : schema) (lbl : flabel) (t : ftype) (p : list pstep) {struct p} : bool :=
-  match p with
-  | [] => false
-  | st :: rest =>
-    match lbl with
-    | LSingular =>
-      match t with
-      | TMsg name =>
-        match find_msg S name with
-        | Some md => match (match st with PField id => find_field md id | PName s => by_name md s | _ => None end) with
-                     | Some fd => bad_intkey S (fd_label fd) (fd_type fd) rest
-                     | None => false
-                     end
-        | None => false
-        end
-      | TScalar _ => false
-      end
-    | LRepeated _ => bad_intkey S LSingular t rest
-    | LMap kk =>
-      match st with
-      | PIntKey _ => (kk =? 6) || (kk =? 7) || (kk =? 8) || bad_intkey S LSingular t rest
-      | _ => bad_intkey S LSingular t rest
-      end
-    end
-  end.
-
-Fixpoint first_container (p : list pstep) : Z :=
-  match p with
-  | [] => 0
-  | s :: r => if is_key s then PT_KEY else if is_index s then PT_INDEX else first_container r
-  end.
-
-Definition class_of (S : schema) (root : list Z) (o : cop) (coded_ex : bool) : Z :=
-  match o with
-  | CSetMany _ => 1006
-  | CSet p _ | CUnset p =>
-    if bad_intkey S LSingular (TMsg root) p then 1004
-    else if (match o with CSet _ _ => true | _ => false end) && negb coded_ex &&
-            match last_step p with Some s => is_key s | None => false end then 1002
-    else if first_container p =? PT_KEY then 1001
-    else if first_container p =? PT_INDEX then 1003
-    else 1005
-  end.
-
-Definition known_class (S : schema) (root : list Z) (prev : list Z) (o : cop) (err ex : Z) (res : list Z) : option Z :=
-  match coded_op S root prev o with
-  | CRes e x b =>
-    if (err =? e) && bytes_eqb res b && (match o with CSet _ _ => (err =? 1) || (ex =? Z.b2z x) | _ => true end)
-    then Some (class_of S root o x) else None
-  | CPanic => if err =? 2 then Some (class_of S root o true) else None
-  | CUnmodelled => None
-  end.
-
-(* does the transcription predict exactly what the implementation returned? (drift detection on conforming steps) *)
-Definition coded_agrees (S : schema) (root : list Z) (prev : list Z) (o : cop) (err ex : Z) (res : list Z) : bool :=
-  match coded_op S root prev o with
-  | CRes e x b => (err =? e) && bytes_eqb res b && (match o with CSet _ _ => (err =? 1) || (ex =? Z.b2z x) | _ => true end)
-  | CPanic => err =? 2
-  | CUnmodelled => true
-  end.
-
-(* ---------------------------------------------------------------- PathNode.Load(recurse) + Marshal as coded, on the AST
-   of a canonical (reference) encoding: recursive Load fails on an empty nested message (`messageLen <= 0`, path.go
-   handleChild) and on maps keyed by fixed32 / fixed64 (ReadInt has no case) / bool (unsupported key type);
-   marshal writes every varint map key with WriteInt64 (sint32 / sint64 keys lose their zig-zag coding). *)
-Fixpoint has_empty_msg (v : pval) : bool :=
-  match v with
-  | VMsg [] => true
-  | VMsg fs => existsb (fun nv => has_empty_msg (snd nv)) fs
-  | VList _ vs => existsb has_empty_msg vs
-  | VMap kvs => existsb (fun kx => has_empty_msg (snd kx)) kvs
-  | _ => false
-  end.
-Definition key_kind_of (k : mkey) : Z := match k with KInt kk _ => kk | KStr _ => 9 end.
-Fixpoint has_key_kind (f : Z -> bool) (v : pval) : bool :=
-  match v with
-  | VMsg fs => existsb (fun nv => has_key_kind f (snd nv)) fs
-  | VList _ vs => existsb (has_key_kind f) vs
-  | VMap kvs => existsb (fun kx => f (key_kind_of (fst kx)) || has_key_kind f (snd kx)) kvs
-  | _ => false
-  end.
-Fixpoint quirk_keys (v : pval) : pval :=
-  match v with
-  | VMsg fs => VMsg (map (fun nv => (fst nv, quirk_keys (snd nv))) fs)
-  | VList p vs => VList p (map quirk_keys vs)
-  | VMap kvs => VMap (map (fun kx => (match fst kx with
-                                     | KInt kk x => if (kk =? 17) || (kk =? 18) then KInt 3 x else KInt kk x
-                                     | k => k
-                                     end, quirk_keys (snd kx))) kvs)
-  | x => x
   end.
 
 (* ---------------------------------------------------------------- PathNode.Load(recurse=true) + Marshal as coded, on bytes
@@ -816,7 +821,8 @@ Section LoadLoops.
              else if is_int_type kk then
                elet '(x, r) := c_int buf rd2 kk in
                let wt := wire_of_type kk in
-               EOk (lm_tag 1 wt ++ (if wt =? 0 then varint_enc (x mod 2 ^ 64)
+               EOk (lm_tag 1 wt ++ (if fx_sintkey fx && ((kk =? 17) || (kk =? 18)) then varint_enc (zigzag_enc x mod 2 ^ 64)
+                                    else if wt =? 0 then varint_enc (x mod 2 ^ 64)
                                     else if wt =? 5 then le_enc 4 (x mod 2 ^ 32) else le_enc 8 (x mod 2 ^ 64)), r)
              else EPlain) in
           elet '(_, _, rd4) := c_tag buf rd3 in
@@ -826,6 +832,8 @@ Section LoadLoops.
       else EOk (acc, rd, n)
     end.
 End LoadLoops.
+
+Definition body_is_nil (b : list Z) : bool := match b with [] => true | _ => false end.
 
 Fixpoint lm_child (fuel : nat) (S : schema) (buf : list Z) (d : tdesc) (rd tagL : Z) {struct fuel} : eres (list Z * Z) :=
   match fuel with
@@ -839,28 +847,31 @@ Fixpoint lm_child (fuel : nat) (S : schema) (buf : list Z) (d : tdesc) (rd tagL 
     elet rd1 := c_skip buf rd (if container then 2 else wire_of_type tty) in
     elet rd2 := (if ((tty =? T_LIST) && negb (td_packed d)) || (tty =? T_MAP)
                  then lm_absorb buf bf rd1 (td_baseid d) else EOk rd1) in
+    (* the buffer of the recursive scan: p.Buf[start:] or, bounded, p.Buf[start:p.Read] (same offsets) *)
+    let cb := if fx_loadbound fx then firstn (Z.to_nat rd2) buf else buf in
+    let cbf := Datatypes.S (length cb) in
     match d with
     | DScalar _ => EOk (slice_ buf start rd2, rd2)
     | DMsg name =>
       match find_msg S name with
       | None => EPanic
       | Some md =>
-        elet '(mlen, r0) := c_len buf start in
-        if mlen <=? 0 then EPlain else
-        elet '(body, rdE) := lm_msg_loop (lm_child f S buf) buf bf md r0 (r0 + mlen) [] in
-        EOk (lm_len body, rdE)
+        elet '(mlen, r0) := c_len cb start in
+        if (if fx_loadempty fx then mlen <? 0 else mlen <=? 0) then EPlain else
+        elet '(body, rdE) := lm_msg_loop (lm_child f S cb) cb cbf md r0 (r0 + mlen) [] in
+        EOk ((if body_is_nil body then slice_ buf start rd2 else lm_len body), rdE)
       end
     | DList id e =>
       if td_packed d then
-        elet '(_, _, r0) := c_tag buf start in
-        elet '(llen, r1) := c_len buf r0 in
-        elet '(body, rdE, n) := lm_packed_loop (lm_child f S buf) bf e r1 (r1 + llen) [] 0 in
+        elet '(_, _, r0) := c_tag cb start in
+        elet '(llen, r1) := c_len cb r0 in
+        elet '(body, rdE, n) := lm_packed_loop (lm_child f S cb) cbf e r1 (r1 + llen) [] 0 in
         EOk ((if n =? 0 then slice_ buf start rd2 else lm_tag id 2 ++ lm_len body), rdE)
       else
-        elet '(body, rdE, n) := lm_unpacked_loop (lm_child f S buf) buf bf e id start [] 0 in
+        elet '(body, rdE, n) := lm_unpacked_loop (lm_child f S cb) cb cbf e id start [] 0 in
         EOk ((if n =? 0 then slice_ buf start rd2 else body), rdE)
     | DMap id kk e =>
-      elet '(body, rdE, n) := lm_map_loop (lm_child f S buf) buf bf id kk e start [] 0 in
+      elet '(body, rdE, n) := lm_map_loop (lm_child f S cb) cb cbf id kk e start [] 0 in
       EOk ((if n =? 0 then slice_ buf start rd2 else body), rdE)
     end
   end.
@@ -873,19 +884,149 @@ Definition coded_load_marshal (S : schema) (root : list Z) (buf : list Z) : eres
     elet '(o, _) := lm_msg_loop (lm_child fuel S buf) buf (Datatypes.S (length buf)) md 0 (blen buf) [] in EOk o
   end.
 
-(* 1007 recursive Load rejects an empty nested message; 1008 ... maps keyed by fixed32/fixed64/bool;
-   1009 sint32/sint64 map keys are re-marshalled without zig-zag; 1010 a repeated / map run is scanned to the end of the
-   BUFFER: records of the enclosing message with the same field number are swallowed by the nested list *)
+End Fx.
+
+(* ---------------------------------------------------------------- defect classes (selectors on the case)
+   ids are listed in findings/C10.json.  OPEN on the current tree (a deviation is accepted as KNOWN only if it equals the
+   transcription under [cur_fixes]):
+   1001 edit at / below a MAP VALUE: the enclosing map-entry length is never re-patched
+   1002 insertion of an absent map key writes a malformed entry
+   1005 a message emptied by the edit is removed together with its tag
+   1008 recursive Load fails on maps keyed by fixed32 / fixed64 / bool
+   1009 Marshal writes sint32 / sint64 map keys without zig-zag
+   1011 SetByPath / UnsetByPath below an element of an unpacked list: the recorded address is BEHIND the element tag, so
+        updateByteLen re-patches garbage instead of the element length
+   1012 int-key step on a map keyed by fixed32 / fixed64: ReadInt has no case -> error
+   REPAIRED upstream (kept as regression recognisers: a deviation that equals the transcription of the OLD code is
+   reported under the old id, which is no longer an open finding, hence a violation):
+   1003 list index addressing (index 0 of unpacked lists, index >= len found), 1004 `err.(Node)` panic,
+   1006 SetMany / SkipAllElements on packed non-varint lists, 1007 Load rejects empty nested messages,
+   1010 repeated / map runs scanned beyond the enclosing message *)
+Definition is_key (s : pstep) : bool := pt_of_step s =? PT_KEY.
+Definition is_index (s : pstep) : bool := pt_of_step s =? PT_INDEX.
+
+(* the key kinds of the maps the path goes through with an int key *)
+Fixpoint bad_intkey (S : schema) (lbl : flabel) (t : ftype) (p : list pstep) {struct p} : bool :=
+  match p with
+  | [] => false
+  | st :: rest =>
+    match lbl with
+    | LSingular =>
+      match t with
+      | TMsg name =>
+        match find_msg S name with
+        | Some md => match (match st with PField id => find_field md id | PName s => by_name md s | _ => None end) with
+                     | Some fd => bad_intkey S (fd_label fd) (fd_type fd) rest
+                     | None => false
+                     end
+        | None => false
+        end
+      | TScalar _ => false
+      end
+    | LRepeated _ => bad_intkey S LSingular t rest
+    | LMap kk =>
+      match st with
+      | PIntKey _ => (kk =? 6) || (kk =? 7) || (kk =? 8) || bad_intkey S LSingular t rest
+      | _ => bad_intkey S LSingular t rest
+      end
+    end
+  end.
+
+Fixpoint first_container (p : list pstep) : Z :=
+  match p with
+  | [] => 0
+  | s :: r => if is_key s then PT_KEY else if is_index s then PT_INDEX else first_container r
+  end.
+
+Fixpoint has_empty_msg (v : pval) : bool :=
+  match v with
+  | VMsg [] => true
+  | VMsg fs => existsb (fun nv => has_empty_msg (snd nv)) fs
+  | VList _ vs => existsb has_empty_msg vs
+  | VMap kvs => existsb (fun kx => has_empty_msg (snd kx)) kvs
+  | _ => false
+  end.
+Definition key_kind_of (k : mkey) : Z := match k with KInt kk _ => kk | KStr _ => 9 end.
+Fixpoint has_key_kind (f : Z -> bool) (v : pval) : bool :=
+  match v with
+  | VMsg fs => existsb (fun nv => has_key_kind f (snd nv)) fs
+  | VList _ vs => existsb (has_key_kind f) vs
+  | VMap kvs => existsb (fun kx => f (key_kind_of (fst kx)) || has_key_kind f (snd kx)) kvs
+  | _ => false
+  end.
+
+(* the repair state of the tree this branch is aligned with *)
+Definition cur_fixes : fixes := all_fixes.
+
+Definition cres_matches (o : cop) (r : cres) (err ex : Z) (res : list Z) : option bool :=      (* Some coded_ex *)
+  match r with
+  | CRes e x b =>
+    if (err =? e) && bytes_eqb res b && (match o with CSet _ _ => (err =? 1) || (ex =? Z.b2z x) | _ => true end)
+    then Some x else None
+  | CPanic => if err =? 2 then Some true else None
+  | CUnmodelled => None
+  end.
+
+Definition class_of (S : schema) (root : list Z) (o : cop) (coded_ex : bool) : Z :=
+  match o with
+  | CSetMany _ => 1006
+  | CSet p _ | CUnset p =>
+    if bad_intkey S LSingular (TMsg root) p then 1012
+    else if (match o with CSet _ _ => true | _ => false end) && negb coded_ex &&
+            match last_step p with Some s => is_key s | None => false end then 1002
+    else if first_container p =? PT_KEY then 1001
+    else if first_container p =? PT_INDEX then 1011
+    else 1005
+  end.
+(* the class of a deviation that only the OLD code shows *)
+Definition regress_class_of (S : schema) (root : list Z) (o : cop) : Z :=
+  match o with
+  | CSetMany _ => 1006
+  | CSet p _ | CUnset p =>
+    if bad_intkey S LSingular (TMsg root) p then 1004
+    else if existsb is_index p then 1003
+    else 1010
+  end.
+
+Definition known_class (S : schema) (root : list Z) (prev : list Z) (o : cop) (err ex : Z) (res : list Z) : option Z :=
+  match cres_matches o (coded_op cur_fixes S root prev o) err ex res with
+  | Some x => Some (class_of S root o x)
+  | None =>
+    (* regression recognisers: the tree before the C10 repairs (d02f250), then the pinned tree *)
+    match cres_matches o (coded_op head_fixes S root prev o) err ex res with
+    | Some x => Some (class_of S root o x)
+    | None =>
+      match cres_matches o (coded_op no_fixes S root prev o) err ex res with
+      | Some _ => Some (regress_class_of S root o)
+      | None => None
+      end
+    end
+  end.
+
+(* does the transcription predict exactly what the implementation returned? (drift detection on conforming steps) *)
+Definition coded_agrees (S : schema) (root : list Z) (prev : list Z) (o : cop) (err ex : Z) (res : list Z) : bool :=
+  match coded_op cur_fixes S root prev o with
+  | CUnmodelled => true
+  | r => match cres_matches o r err ex res with Some _ => true | None => false end
+  end.
+
+Definition load_matches (r : eres (list Z)) (err : Z) (outb : list Z) : bool :=
+  match r with
+  | EOk o => (err =? 0) && bytes_eqb outb o
+  | EPanic => err =? 2
+  | _ => err =? 1
+  end.
+
 Definition known_load (S : schema) (root : list Z) (m0 : pmsg) (b0 : list Z) (rec err : Z) (outb : list Z) : option Z :=
   if negb (rec =? 1) then None else
   let v := VMsg m0 in
   let empty := existsb (fun nv => has_empty_msg (snd nv)) m0 in
   let badkey := has_key_kind (fun k => (k =? 6) || (k =? 7) || (k =? 8)) v in
-  match coded_load_marshal S root b0 with
-  | EOk o =>
-    if (err =? 0) && bytes_eqb outb o then
-      Some (if has_key_kind (fun k => (k =? 17) || (k =? 18)) v then 1009 else 1010)
-    else None
-  | EPanic => None
-  | _ => if err =? 1 then Some (if empty then 1007 else if badkey then 1008 else 1010) else None
-  end.
+  let sint := has_key_kind (fun k => (k =? 17) || (k =? 18)) v in
+  if load_matches (coded_load_marshal cur_fixes S root b0) err outb then
+    Some (if err =? 0 then (if sint then 1009 else 1010) else if badkey then 1008 else 1010)
+  else if load_matches (coded_load_marshal head_fixes S root b0) err outb then
+    Some (if err =? 0 then (if sint then 1009 else 1010) else if badkey then 1008 else 1010)
+  else if load_matches (coded_load_marshal no_fixes S root b0) err outb then
+    Some (if (err =? 1) && empty then 1007 else 1010)
+  else None.
